@@ -580,7 +580,22 @@ func (e *Engine) funcCtx(p *Path, fr *Frame, old *State) *EvalCtx {
 	for k, v := range fr.lets {
 		env[k] = v
 	}
-	return &EvalCtx{eng: e, pkg: e.pkgOfFunc(fr.fn), cur: p.st, old: old, env: env}
+	ctx := &EvalCtx{eng: e, pkg: e.pkgOfFunc(fr.fn), cur: p.st, old: old, env: env}
+	if fr.ct != nil {
+		var names []string
+		for _, prm := range fr.fn.Params {
+			names = append(names, prm.Name())
+		}
+		ctx.unknown = func(name string) (TV, bool) {
+			if i, ok := e.renamedParam(fr.ct, names, name); ok {
+				if v, has := fr.env[fr.fn.Params[i]]; has {
+					return TV{V: v, T: fr.fn.Params[i].Type()}, true
+				}
+			}
+			return TV{}, false
+		}
+	}
+	return ctx
 }
 
 func bindResults(env map[string]TV, sig *types.Signature, res []Value) {
@@ -895,9 +910,19 @@ func (e *Engine) applyContract(p *Path, fr *Frame, ct *Contract, what string, pk
 			env[fmt.Sprintf("arg%d", i)] = TV{V: args[i], T: tys[i]}
 		}
 	}
+	// a name of the contract that is not a parameter (any more): see rename.go
+	unk := func(name string) (TV, bool) {
+		if ct.Kind != "func" {
+			return TV{}, false
+		}
+		if i, ok := e.renamedParam(ct, names, name); ok && i < len(args) {
+			return TV{V: args[i], T: tys[i]}, true
+		}
+		return TV{}, false
+	}
 	// case splits requested by the contract: fork the path so that the condition is decided
 	for _, cs := range ct.Cases {
-		cctx := &EvalCtx{eng: e, pkg: pkg, cur: p.st, old: p.st, env: env}
+		cctx := &EvalCtx{eng: e, pkg: pkg, cur: p.st, old: p.st, env: env, unknown: unk}
 		t, err := cctx.EvalBool(cs.E)
 		if err != nil {
 			e.failObl("resolve", "cases@"+what, err.Error()+" at "+cs.Where())
@@ -916,7 +941,7 @@ func (e *Engine) applyContract(p *Path, fr *Frame, ct *Contract, what string, pk
 		return append(forks, e.applyContract(p, fr, ct, what, pkg, sig, names, tys, args, dst, pos)...)
 	}
 	pre := p.st.Clone()
-	ctx := &EvalCtx{eng: e, pkg: pkg, cur: p.st, old: pre, env: env}
+	ctx := &EvalCtx{eng: e, pkg: pkg, cur: p.st, old: pre, env: env, unknown: unk}
 	for _, l := range ct.Lets {
 		tv, err := ctx.Eval(l.E)
 		if err != nil {
@@ -952,7 +977,7 @@ func (e *Engine) applyContract(p *Path, fr *Frame, ct *Contract, what string, pk
 	e.havoc(p.st, ms)
 	var fwd *fwdResult
 	if len(ct.Forwards) > 0 {
-		fctx := &EvalCtx{eng: e, pkg: pkg, cur: pre, old: pre, env: env}
+		fctx := &EvalCtx{eng: e, pkg: pkg, cur: pre, old: pre, env: env, unknown: unk}
 		fwd, err = e.evalForwards(fctx, ct, pre)
 		if err != nil {
 			e.failObl("resolve", "forwards@"+what, err.Error())
@@ -965,7 +990,7 @@ func (e *Engine) applyContract(p *Path, fr *Frame, ct *Contract, what string, pk
 	canPanic := ct.MayPanic || len(ct.XEnsures) > 0 || len(ct.Panics) > 0 || ct.NoReturn
 	var panicConds []*Term
 	for _, pc := range ct.Panics {
-		t, err := (&EvalCtx{eng: e, pkg: pkg, cur: pre, old: pre, env: env}).EvalBool(pc.E)
+		t, err := (&EvalCtx{eng: e, pkg: pkg, cur: pre, old: pre, env: env, unknown: unk}).EvalBool(pc.E)
 		if err != nil {
 			e.failObl("resolve", "panics@"+what, err.Error()+" at "+pc.Where())
 			p.done = true
@@ -984,7 +1009,7 @@ func (e *Engine) applyContract(p *Path, fr *Frame, ct *Contract, what string, pk
 			if fwd != nil {
 				fwd.apply(p2.st, true)
 			}
-			c2 := &EvalCtx{eng: e, pkg: pkg, cur: p2.st, old: pre, env: env}
+			c2 := &EvalCtx{eng: e, pkg: pkg, cur: p2.st, old: pre, env: env, unknown: unk}
 			bad := false
 			for _, x := range ct.XEnsures {
 				t, err := c2.EvalBool(x.E)
@@ -1024,7 +1049,7 @@ func (e *Engine) applyContract(p *Path, fr *Frame, ct *Contract, what string, pk
 		renv[k] = v
 	}
 	bindResults(renv, sig, res)
-	c3 := &EvalCtx{eng: e, pkg: pkg, cur: p.st, old: pre, env: renv}
+	c3 := &EvalCtx{eng: e, pkg: pkg, cur: p.st, old: pre, env: renv, unknown: unk}
 	for _, en := range ct.Ensures {
 		t, err := c3.EvalBool(en.E)
 		if err != nil {
